@@ -184,7 +184,9 @@ Section WithIdent.
       apply bind_RFuel in H. destruct H as [H|[a1 [_ H]]].
       + destruct (ra_index a); [discriminate|]. apply bind_RFuel in H. destruct H as [H|[i [_ H]]]; [|discriminate].
         unfold resolve_sym in H. destruct (ra_sym a) as [n|n].
-        * destruct (sm_get n terms); [discriminate|]. destruct (sm_get n nts) as [nt|]; [|discriminate].
+        * destruct (sm_get n terms); [discriminate|].
+          destruct (existsb (String.eqb n) ["AUG"; "AUGL"]%string); [discriminate|].
+          destruct (sm_get n nts) as [nt|]; [|discriminate].
           destruct ((rl =? 1) && (nd_idx nt =? pn)); discriminate.
         * destruct (sm_get n terms); discriminate.
       + apply bind_RFuel in H. destruct H as [H|[l1 [_ H]]]; [eapply IHl; eauto|discriminate].
